@@ -499,11 +499,25 @@ func (w *World) RunGopki(op *Op) *RunResult {
 	res := &RunResult{Op: op, Before: fs.Snapshot(), LogFrom: len(fs.Log())}
 	w.seedEntropy(op)
 	fs.BeginRun(op.Faults, Mix(w.Plan.Seed, uint64(op.ID)+77), w.Plan.LatMicros, op.Chunk)
+	actorDone := map[int]bool{}
 	if len(op.Actor) > 0 {
 		fs.actor = map[int]func(){}
 		for i := range op.Actor {
 			st := &op.Actor[i]
-			fs.actor[st.AtOp] = func() { w.applyActor(&st.Op); w.Hit("actor-step-in-run") }
+			prev := fs.actor[st.AtOp]
+			fs.actor[st.AtOp] = func() {
+				if prev != nil {
+					prev()
+				}
+				actorDone[i] = true
+				w.step() // E2: an external step is at least one mtime granule away from the run's own writes
+				w.applyActor(&st.Op)
+				w.step()
+				for _, h := range actorHooks {
+					h(w, &st.Op)
+				}
+				w.Hit("actor-step-in-run")
+			}
 		}
 	}
 	res.T0 = time.Now()
@@ -547,6 +561,17 @@ func (w *World) RunGopki(op *Op) *RunResult {
 	res.T1 = time.Now()
 	res.Writes = fs.RunWrites()
 	fs.EndRun()
+	// external steps the run was too short to meet happen right after it
+	for i := range op.Actor {
+		if !actorDone[i] {
+			w.step()
+			w.applyActor(&op.Actor[i].Op)
+			for _, h := range actorHooks {
+				h(w, &op.Actor[i].Op)
+			}
+			w.Hit("actor-step-after-run")
+		}
+	}
 	res.After = fs.Snapshot()
 	res.LogTo = len(fs.Log())
 	if fs.PostCrashOps > 0 {
